@@ -24,6 +24,10 @@ def analyse(prop, root, tier, sources=None):
         mod.run(ctx)
     except AnalysisError as ex:
         ctx.unknown(f"{prop}.anchor", None, None, "anchor", str(ex))
+    if os.environ.get("OCV_DEMOTE_PHI") == "1":
+        for r in ctx.results:
+            if r.status == VIOLATION and ("phi<" in r.construct or "phi<" in r.msg):
+                r.status = UNKNOWN
     if Interp.UNHANDLED:
         # never report a violation for a function the interpreter could only partly read: say so instead (exit 2, not 1)
         partly = {q for _k, q, _t, _l in Interp.UNHANDLED} | {t for _k, _q, t, _l in Interp.UNHANDLED}
